@@ -127,6 +127,13 @@ class Frame:
         return f
 
 
+def m_mul_list(mats):
+    m = IDENT
+    for x in mats:
+        m = m_mul(x, m)
+    return m
+
+
 def _fn_mats(fns, ppi):
     return [matref.fn_matrix(fn, ppi) for fn in fns] if fns else []
 
@@ -188,6 +195,10 @@ def evaluate(root, cfg, css=None):
             elif n.get("vb") is not None:
                 f2.add("root-viewbox")
             fr2 = fr.step(own + [vt], _metric(g))
+            if n.get("vb") is not None:
+                # the translation of a viewport transform is a difference of products of these operands (alignment terms cancel)
+                vb_ = n["vb"]
+                fr2.terr += fr.amp * max(1.0, _norm(m_mul_list(own))) * (abs(ex) + abs(ey) + ew + eh + (abs(vb_[0]) + abs(vb_[1]) + vb_[2] + vb_[3]) * max(abs(vt[0]), abs(vt[3])))
             # for non-scaling strokes: (product of the determinants of the enclosing viewBox transforms, CTM at the nearest svg with a viewBox)
             vp2 = (vpctm[0] * (vt[0] * vt[3] - vt[1] * vt[2]), fr2.ctm) if n.get("vb") is not None else vpctm
             for c in n.get("children", []):
@@ -208,6 +219,9 @@ def evaluate(root, cfg, css=None):
             if target is not None and depth < 60:
                 f2 = set(feats)
                 f2.add("via-use")
+                for k_, l_ in g.items():
+                    if l_[1] == "%":
+                        f2.add("use-percent-" + AXIS[k_])
                 walk(target, fr.step(own + [(1.0, 0.0, 0.0, 1.0, tx, ty)], _metric(g)), vp, here, f2, depth + 1, env, vpctm)
             return
         if t in ("rect", "circle", "ellipse", "line", "polyline", "polygon", "path"):
